@@ -407,6 +407,12 @@ class Executor:
                 k = p[1]
                 return v.elems[k]
             if isinstance(v, VSlice) and isinstance(v.vec, VVec):
+                st0 = v.start
+                if hasattr(st0, "e"):
+                    e0 = z3.simplify(st0.e)
+                    st0 = e0.as_long() if z3.is_bv_value(e0) else None
+                if isinstance(st0, int) and st0 + p[1] < len(v.vec.elems):
+                    return v.vec.elems[st0 + p[1]]
                 raise PathEnd("constindex on slice")
             raise PathEnd("constindex")
         raise PathEnd("projection %r" % (p,))
